@@ -533,6 +533,34 @@ pub fn check(start: Start, b: &[u8], ctx: &mut Ctx) -> Result<(), Failure> {
             }
         }
     }
+    // single-layer decoders handed the bytes of each layer directly (the layer starts at offset 0 of
+    // their buffer and only the slice bounds it), whole and cut short at a position derived from the
+    // bytes: their errors must be true of exactly those bytes
+    // (every second input, chosen by its bytes: the part costs as much as everything else together)
+    if (b.len() + b.first().copied().unwrap_or(0) as usize) % 2 == 0 {
+        let mut offs: Vec<usize> = vec![0];
+        for l in rs.layers.iter().chain(rl.layers.iter()) {
+            for o in [l.off, l.pay.off] {
+                if o < b.len() && !offs.contains(&o) && offs.len() < 4 {
+                    offs.push(o);
+                }
+            }
+        }
+        for f in rs.faults.iter().chain(rl.faults.iter()) {
+            if f.off < b.len() && !offs.contains(&f.off) && offs.len() < 5 {
+                offs.push(f.off);
+            }
+        }
+        for (i, o) in offs.iter().enumerate() {
+            let s = &b[*o..];
+            super::c07_single::check_single(s, ctx)?;
+            if !s.is_empty() {
+                let h = (s[0] as usize).wrapping_mul(31).wrapping_add(s.len()).wrapping_add(i * 7);
+                let cut = h % s.len().min(44);
+                super::c07_single::check_single(&s[..cut], ctx)?;
+            }
+        }
+    }
     if let Err(m) = catch(|| offset_helpers(b, [0usize, 14, 18, 4, 65_521][b.len() % 5])) {
         return ctx.fail(Failure::new(format!("C07|panic|{}", panic_location(&m)), "an answer is prescribed for every input", m, input_json(start, b)));
     }
@@ -591,6 +619,9 @@ impl Property for C07 {
         check(p.start, &p.bytes, ctx)
     }
     fn replay(&self, input: &Value, ctx: &mut Ctx) -> Result<(), Failure> {
+        if input.get("single").is_some() {
+            return super::c07_single::check_single(&input_bytes(input, "bytes_hex"), ctx);
+        }
         check(Start::from_json(&input["start"]), &input_bytes(input, "bytes_hex"), ctx)
     }
     fn describe(&self, tape: &[u8]) -> Value {
